@@ -137,6 +137,19 @@ Fixpoint wins_after (c : cconfig) (w : list N) (ms : list (list N)) : list (list
       w' :: wins_after c w' ms'
   end.
 
+(* what a reader primed with the documented dictionary produces for each wire message, and the
+   dictionary it holds afterwards, DEFLATE-free.  [leak] = the writer's DEFLATE put the
+   dictionary in front of the message (finding F28: compress/flate NewWriterDict emits a stored
+   block that starts at the beginning of its window); without leaks this is [wins_after]. *)
+Fixpoint rd_follow (c : cconfig) (w : list N) (ms : list (list N * bool)) : list (list N * list N) :=
+  match ms with
+  | [] => []
+  | ml :: ms' =>
+      let out := if snd ml then w ++ fst ml else fst ml in
+      let w' := match mode_of c with MTakeover => win_next (window_size c) w out | _ => w end in
+      (out, w') :: rd_follow c w' ms'
+  end.
+
 (* ---------- compact message descriptions and digests (keep case terms small) ---------- *)
 
 (* a message is a list of pieces expanded against the bytes written before it on the same
@@ -209,11 +222,17 @@ Record ws_case := mkWsCase {
   wc_np : nparams;                          (* negotiated parameters given to websocket.New on both sides *)
   wc_base : cconfig;                        (* Config.CompressConfig given to websocket.New on both sides *)
   wc_writers : list (list (list piece));    (* per writer goroutine: its messages in write order *)
+  wc_strict : bool;                         (* the in-memory Conn behaves like the coder/nhooyr backends on a
+                                               fragmented message: io.EOF only on a Read after the last payload
+                                               byte, and Reader() refuses (for good) while the previous message
+                                               has not been read to io.EOF *)
   (* observation *)
   wc_order : list (option (N * N));         (* per WebSocket message on the wire, in wire order: the written
                                                message (writer, index) that the harness's independent decoder
                                                recovered from the wire bytes with the documented dictionary;
                                                None = the decoder failed or recovered something never written *)
+  wc_leak : list bool;                      (* per WebSocket message: the independent decoder recovered
+                                               dictionary ++ message instead of the message (F28) *)
   wc_wire : list obsb;                      (* the wire bytes of each message *)
   wc_dmode : N;                             (* mode the independent decoder derived: 0 off, 1 per-message, 2 takeover *)
   wc_dW : N;                                (* window size the independent decoder derived *)
@@ -242,6 +261,14 @@ Definition wire_msgs (c : ws_case) : list (list N) :=
                         | None => []
                         end) (wc_order c)).
 
+(* the same with the leak flag of each *)
+Definition wire_msgs_l (c : ws_case) : list (list N * bool) :=
+  let ms := case_msgs c in
+  concat (map (fun ol => match fst ol with
+                         | Some wi => match msg_at ms wi with Some m => [(m, snd ol)] | None => [] end
+                         | None => []
+                         end) (combine (wc_order c) (wc_leak c))).
+
 Definition all_some {A} (l : list (option A)) : bool :=
   forallb (fun o => match o with Some _ => true | None => false end) l.
 
@@ -267,25 +294,43 @@ Definition order_complete (c : ws_case) : bool :=
 
 Definition sum_obs_len (l : list obsb) : N := fold_left (fun a o => a + obs_len o) l 0.
 
+(* A Conn with the strict rule of coder/nhooyr (io.EOF only on a Read after the last payload byte;
+   Reader() refused for good while the previous message was not read to io.EOF).
+   [drains] = Transport.Read reads the message reader to io.EOF after decoding.
+   - the FORMER Read (finding F29, drains = false): with compression on, decoding stopped at the
+     end of the DEFLATE stream, so every Reader() after the first message was refused;
+   - Read AS IT IS NOW (fix 1ebe65c, drains = true): io.Copy(io.Discard, rd) after decodeFrom,
+     the rule has no effect.  Without compression the message was always read to EOF. *)
+Definition conn_rule_gen (drains strict : bool) (m : mode) (reads : list (option (list N))) : list (option (list N)) :=
+  match strict && negb drains, m, reads with
+  | true, MPerMsg, r :: rest | true, MTakeover, r :: rest => r :: map (fun _ => None) rest
+  | _, _, _ => reads
+  end.
+(* the code as it is now *)
+Definition read_drains_to_eof : bool := true.
+Definition conn_rule := conn_rule_gen read_drains_to_eof.
+
 (* correspondence: what the model predicts vs what was observed *)
 Definition ws_corr (c : ws_case) : bool :=
   let cfg := compress_config (wc_np c) (wc_base c) in
   let ms := wire_msgs c in
+  let rd := rd_follow cfg [] (wire_msgs_l c) in
   (* the independent decoder runs in the mode and with the window the model derives *)
   (wc_dmode c =? mode_code (mode_of cfg))
   && (match mode_of cfg with MTakeover => wc_dW c =? window_size cfg | _ => true end)
-  (* its dictionary after every message is the model's dictionary *)
+  && (lenN (wc_leak c) =? lenN (wc_order c))
+  (* its dictionary after every message is the model reader's dictionary *)
   && (if all_some (wc_order c)
-      then list_eqb2 (fun w ld => (lenN w =? fst ld) && (digest w =? snd ld))
-                     (wins_after cfg [] ms) (wc_dwin c)
+      then list_eqb2 (fun w ld => (lenN w =? fst ld) && (digest w =? snd ld)) (map snd rd) (wc_dwin c)
       else true)
   (* compression off: the wire bytes are the message *)
   && (match mode_of cfg with
       | MOff => list_eqb2 obs_matches (wc_wire c) ms
       | _ => true
       end)
-  (* the model's reader (under inflate_deflate) returns the written messages *)
-  && list_eqb2 (opt_eqb obs_matches) (wc_reads c) (map Some ms)
+  (* the model's reader returns the written messages (under inflate_deflate; with the
+     dictionary in front where DEFLATE was observed to violate it) *)
+  && list_eqb2 (opt_eqb obs_matches) (wc_reads c) (conn_rule (wc_strict c) (mode_of cfg) (map (fun x => Some (fst x)) rd))
   (* counters follow the wire lengths *)
   && (wc_tx c =? fold_left (fun a o => add64 a (obs_len o)) (wc_wire c) 0).
 
@@ -294,6 +339,7 @@ Definition ws_ok (c : ws_case) : bool :=
   (* every message on the wire is decodable by the independent decoder with the documented
      dictionary, into a written message; per-writer order kept; nothing lost or duplicated *)
   order_complete c
+  && forallb negb (wc_leak c)
   && (lenN (wc_wire c) =? lenN (wc_order c))
   && (wc_werrs c =? 0)
   (* the peer reads the same messages, byte for byte, same order, one per call *)
